@@ -536,7 +536,11 @@ theorem step_nosub {s : Sess} {sub : SubId} (e : SEv) (he : ∀ id beh, e ≠ .m
         split
         · rw [alookup_append, h1]; simp [alookup_cons, Ne.symm hne]
         · exact alookup_aupd_none _ h1
-      | goodbye => exact (noSubLiftX sub).goodbye h _
+      | goodbye =>
+        simp only [onEstablished]
+        split
+        · exact h
+        · exact (noSubLiftX sub).goodbye h _
       | event sub' pub p =>
         simp only [onEstablished]; split
         · exact h
